@@ -784,9 +784,14 @@ pub fn value_cases(codec: Codec, types: &[VariantType], k3: bool, large: bool) -
         if k3 {
             let n = alpha.len();
             if n <= 24 {
+                let big = |l: &str| l.starts_with("len65") || l == "len64k";
                 for a in &alpha {
                     for b in &alpha {
                         for c in &alpha {
+                            // the large blobs appear in triples only as (x, x, x)
+                            if (big(&a.label) || big(&b.label) || big(&c.label)) && !(a.label == b.label && b.label == c.label) {
+                                continue;
+                            }
                             out.push(CaseDesc::Value {
                                 ty: tn.clone(),
                                 labels: vec![a.label.clone(), b.label.clone(), c.label.clone()],
